@@ -480,8 +480,11 @@ where
                 let st = unsafe { &mut *stp };
                 if st.dead { break; }
                 let (before_pos, before_cur) = positions(v.allocator_stats());
-                let kind = st.rng.below(5);
+                let kind = st.rng.below(6);
                 let additional: usize = match kind {
+                    // a request that passes the vector's own layout check and overflows the chunk size computation:
+                    // made through the PANICKING method inside catch_unwind, the vector lives on afterwards
+                    5 => ((isize::MAX as usize - (ea - 1)) / es).saturating_sub(v.len() + st.rng.below(4) as usize),
                     0 => 1,
                     1 => st.rng.range(1, 40) as usize,
                     2 => if shadow.is_empty() { 1 } else { st.rng.range(1, shadow.len() as u64) as usize },
@@ -493,7 +496,7 @@ where
                 let grows = len + additional > cap;
                 let exact = kind == 4;
                 let req = if exact { len + additional } else { (cap * 2).max(len + additional).max(min_non_zero_cap(es)) };
-                let fail = grows && st.rng.below(100) < st.fail_rate.max(8);
+                let fail = grows && kind != 5 && st.rng.below(100) < st.fail_rate.max(8);
                 if grows {
                     if fail { let _ = writeln!(st.out, "FAIL"); with_pool(|p| p.fail_next = true); }
                     let _ = writeln!(st.out, "O PR {h} {es} {ea} {req} {} 0", rev as u8);
@@ -505,8 +508,10 @@ where
                     2 => { let a = st.rng.below((shadow.len() - additional + 1) as u64) as usize; let r = v.try_extend_from_within_copy(a..a + additional);
                            if r.is_ok() { let part: Vec<$t> = shadow[a..a + additional].to_vec(); if rev { let mut n = part; n.extend(shadow.iter().copied()); shadow = n; } else { shadow.extend(part) } } r }
                     3 => v.try_reserve(additional),
+                    5 => match catch_unwind(AssertUnwindSafe(|| v.reserve(additional))) { Ok(()) => Ok(()), Err(_) => Err(AllocError) },
                     _ => v.try_reserve_exact(additional),
                 };
+                if kind == 5 && grows && r.is_ok() { st.x("panic", "MutBumpVec::reserve of a capacity whose chunk size overflows returned normally"); }
                 st.epoch += if grows { 1 } else { 0 };
                 if grows {
                     events_lines(st);
